@@ -5,6 +5,8 @@ open Zconv
 module M = Sections
 
 let pinned = Array.length Sys.argv > 1 && Sys.argv.(1) = "--pinned"
+(* --mid: flatten without the backward step of fixes/C10-flatten-empty-section-offset (a tree that does not have it yet) *)
+let mid = Array.length Sys.argv > 1 && Sys.argv.(1) = "--mid"
 
 let err_name = function
   | M.EOk -> "ok" | M.EInvalidArgument -> "EINVAL" | M.EInvalidSectionName -> "ENAME"
@@ -116,7 +118,7 @@ let () =
             (match M.section_by_name !st.M.jh (unhex (next ())) with
              | Some id -> emit ("B:" ^ string_of_cz id) | None -> emit "B:-")
           | "F" ->
-            let (e, h') = (if pinned then M.flatten_pinned else M.flatten) !st.M.jh in
+            let (e, h') = (if pinned then M.flatten_pinned else if mid then M.flatten_mid else M.flatten) !st.M.jh in
             st := { !st with M.jh = h' };
             emit ("F:" ^ err_name e)
           | "L" ->
@@ -145,7 +147,7 @@ let () =
               emit ("Q:" ^ err_name e ^ ":" ^ image n mem')
             end
           | "J" ->
-            if !huge then emit "J:unsafe"
+            if !huge || Z.gt (z_of_cz (M.code_size !st.M.jh)) max_dst then emit "J:unsafe"
             else begin
               if !calls = [] then begin
                 let (((e, size), img), h') = M.jit_add_c !st.M.jh c_cd in
@@ -167,10 +169,19 @@ let () =
             let a = cz_of_string (next ()) in
             ignore (next ());
             let pos = (match M.by_id !st.M.jh (cz_of_int 0) with Some t -> t.M.sbsize | None -> cz_of_int 0) in
-            calls := !calls @ [ (pos, a) ];
+            calls := !calls @ [ M.SCall (pos, a) ];
             st := M.emit_call_bytes !st a;
             (match M.by_id !st.M.jh (cz_of_int 0) with
              | Some t -> emit ("K:ok:" ^ string_of_cz t.M.sbsize) | None -> emit "K:?")
+          | "E" ->
+            let id = cz_of_string (next ()) in
+            (match (if !huge then None else M.by_id !st.M.jh id), M.by_id !st.M.jh (cz_of_int 0) with
+             | Some sec, Some text ->
+               calls := !calls @ [ M.SAbs (text.M.sbsize, id, sec.M.sbsize) ];
+               st := M.emit_abs_bytes !st;
+               (match M.by_id !st.M.jh (cz_of_int 0) with
+                | Some t -> emit ("E:ok:" ^ string_of_cz t.M.sbsize ^ ":" ^ string_of_cz sec.M.sbsize) | None -> emit "E:?")
+             | _ -> emit "E:bad")
           | "X" ->
             let base = cz_of_string (next ()) in
             ignore (next ());
